@@ -1172,8 +1172,10 @@ impl FatVolume {
             };
         debug!("Next free cluster is {:?}", self.next_free_cluster);
         // Record that we've allocated a cluster
+        // The count comes from the (advisory) info sector and may be stale:
+        // a stored 0 must not make the allocation panic.
         if let Some(ref mut number_free_cluster) = self.free_clusters_count {
-            *number_free_cluster -= 1;
+            *number_free_cluster = number_free_cluster.saturating_sub(1);
         };
         if zero {
             let start_block_idx = self.cluster_to_block(new_cluster);
@@ -1224,12 +1226,16 @@ impl FatVolume {
                 }
                 Err(Error::EndOfFile) => {
                     self.update_fat(block_cache, next, ClusterId::EMPTY)?;
+                    // the last cluster of the chain has been freed, too
+                    if let Some(ref mut number_free_cluster) = self.free_clusters_count {
+                        *number_free_cluster = number_free_cluster.saturating_add(1);
+                    };
                     break;
                 }
                 Err(e) => return Err(e),
             }
             if let Some(ref mut number_free_cluster) = self.free_clusters_count {
-                *number_free_cluster += 1;
+                *number_free_cluster = number_free_cluster.saturating_add(1);
             };
         }
         Ok(())
